@@ -992,7 +992,7 @@ def run(chk):
         sany(m)
     ncpu = int(__import__('os').environ.get('VERIF_TLC_WORKERS', 0) or 0) or max(2, (__import__('os').cpu_count() or 4) // 3)
     gens = [f'Gen_ParamCache_{tier}.cfg', f'Gen_ParamCache_cover_{tier}.cfg'] if quick else \
-           [f'Gen_ParamCache_thorough_{k}.cfg' for k in ('a', 'b', 'c')] + ['Gen_ParamCache_cover_thorough.cfg']
+           [f'Gen_ParamCache_thorough_{k}.cfg' for k in ('a', 'b')] + ['Gen_ParamCache_cover_thorough.cfg']
     # all TLC jobs are subprocesses: start them side by side (threads only wait for them)
     with ThreadPoolExecutor(max_workers=4) as ex:
         f_gen = [ex.submit(emit_behaviours, 'Gen_ParamCache', cfg, maximal_only=False, timeout=1100,
@@ -1011,9 +1011,9 @@ def run(chk):
 
         # 3/4 code -> spec drivers run while TLC enumerates
         t0 = _time.time()
-        n = 220 if quick else 2500
-        seq = pool_map(_random_trace, [(chk.seed * 1000003 + i, 60 if quick else 100) for i in range(n)])
-        n = 120 if quick else 1500
+        n = 220 if quick else 1000
+        seq = pool_map(_random_trace, [(chk.seed * 1000003 + i, 60 if quick else 80) for i in range(n)])
+        n = 120 if quick else 1000
         thr = pool_map(_threaded_trace, [(chk.seed * 1000003 + i, 2 + i % 2, 3 if quick else 4) for i in range(n)])
         phase['drivers'] = round(_time.time() - t0, 1)
         probes = _corrupted(seq)
